@@ -90,7 +90,11 @@ def fetch(port, request, reader="fast", rnd=None, timeout=30):
         s = client_ctx().wrap_socket(raw, server_hostname="localhost")
         s.sendall(request)
         out = bytearray()
+        fetch._idled = False
         while True:
+            if reader == "idle5" and len(out) > 0 and not getattr(fetch, "_idled", False):
+                fetch._idled = True
+                time.sleep(5)
             if reader == "slow":
                 time.sleep(0.002)
                 n = 1024
@@ -167,6 +171,18 @@ def c06_live(rep, rnd, thorough):
                     rep.violation({"formula": "BackendsIdentical", "kind": kind, "live": True},
                                   "streams differ between backends for a %s body of %d" % (kind, size), None)
                 del bodies[key]
+        if thorough:
+            # a reader that idles for a few seconds after the header while a body larger than the kernel's socket buffers is pending
+            key = "bytes-idle"
+            size = 24 * 1024 * 1024
+            bodies[key] = body_for(size, "bytes", rnd)
+            for bk, srv in servers.items():
+                data, end = fetch(srv.port, b"gemini://localhost/%s\r\n" % key.encode(), "idle5", rnd, timeout=90)
+                n += 1
+                if data != b"20 application/octet-stream\r\n" + bodies[key] or end != "eof":
+                    rep.violation({"formula": "ByteExact", "backend": bk, "kind": "bytes", "live": True, "reader": "idle"},
+                                  "live %s backend, 24 MiB body, reader idle for 5 s after the header: received %d bytes, end=%s" % (bk, len(data), end), None)
+            del bodies[key]
         rep.add("live_fetches", n)
         rep.add("traces_validated_against_impl", n)
         rep.sample({"live_c06": {"sizes": sizes[:12], "backends": list(servers), "readers": ["fast", "slow", "bursty"]}})
@@ -177,7 +193,7 @@ def c06_live(rep, rnd, thorough):
 
 
 # ---------------------------------------------------------------------------------------------------------------------
-def stall_case(port, stage, deadline, want40):
+def stall_case(port, stage, deadline, want40, tcp_level=False):
     """Connect, go silent at `stage`, and report (closed_within_deadline, bytes received, elapsed)."""
     t0 = time.time()
     raw = socket.create_connection(("127.0.0.1", port), timeout=10)
@@ -225,6 +241,21 @@ def stall_case(port, stage, deadline, want40):
                 if not d:
                     break
                 got += d
+            # end of the TLS stream (close_notify).  We do NOT answer it.  On the PyOpenSSL backend the implementation
+            # owns the TCP close and must perform it itself: wait for the FIN on the raw socket.  (On the stdlib backend
+            # asyncio's SSL layer waits for the peer's close_notify up to its own shutdown timeout - 30 s by default -
+            # before closing TCP; the TLS session is over, which is what is asserted there.)
+            if not tcp_level:
+                return True, got, time.time() - t0
+            try:
+                while True:
+                    rawd = socket.socket.recv(s, 65536)
+                    if not rawd:
+                        break
+            except socket.timeout:
+                return False, got + b" [TLS closed, TCP left open]", time.time() - t0
+            except (ConnectionResetError, OSError):
+                pass
             return True, got, time.time() - t0
         except socket.timeout:
             return False, got, time.time() - t0
@@ -264,9 +295,10 @@ def c15_live(rep, rnd, thorough):
 
         def run(bk, stage):
             want40 = not stage.startswith("hello")
-            r = stall_case(servers[bk].port, stage, T + SLACK, want40)
+            tcp = bk == "pyopenssl"
+            r = stall_case(servers[bk].port, stage, T + SLACK, want40, tcp)
             if not r[0] or (want40 and not r[1].startswith(b"40 ")):
-                r = stall_case(servers[bk].port, stage, T + 2 * SLACK, want40) + ("retried",)   # one retry, recorded
+                r = stall_case(servers[bk].port, stage, T + 2 * SLACK, want40, tcp) + ("retried",)   # one retry, recorded
             results[(bk, stage)] = r
 
         for bk in servers:
@@ -285,6 +317,8 @@ def c15_live(rep, rnd, thorough):
                 rep.violation({"formula": "SilentPeerDropped", "backend": bk, "stage": stage.split(":")[0], "live": True},
                               "live %s backend: peer silent at %s still connected after %.1fs (timeout %.1fs)" % (bk, stage, el, T), None)
             elif want40 and not got.startswith(b"40 "):
+                pass
+            if closed and want40 and not got.startswith(b"40 "):
                 rep.violation({"formula": "TimeoutAnswers", "backend": bk, "stage": stage, "live": True},
                               "live %s backend: peer silent at %s was closed without a 40 response (got %r)" % (bk, stage, got[:40]), None)
             if len(r) > 3:
